@@ -208,6 +208,10 @@ impl Crate {
                     }
                 } else {
                     let mname = m.mac.path.segments.last().map(|s| s.ident.to_string()).unwrap_or_default();
+                    if !self.macro_defs.contains_key(&mname) {
+                        // `include!`, a macro of a dependency, …: items the translator does not see
+                        self.global_problems.push(format!("item-level macro invocation `{}!` is not expanded", mname));
+                    }
                     if let Some(def) = self.macro_defs.get(&mname).cloned() {
                         match expand_simple_macro(&def, &m.mac.tokens) {
                             Ok(files) => {
@@ -237,6 +241,8 @@ impl Crate {
                     for i in items {
                         self.add_item(file, i, None);
                     }
+                } else if !config::KNOWN_MODULES.contains(&m.ident.to_string().as_str()) {
+                    self.global_problems.push(format!("module `{}` in a file of its own is not read", m.ident));
                 }
             }
             _ => {}
